@@ -56,6 +56,7 @@ var urlPool = []string{
 	"https://idp.example:8443/path/to/sso?ü=é",
 	"https://idp.example/sso?empty=&flag",
 	"https://idp.example/s%C3%A9/sso?k=%3Cv%3E",
+	"https://idp.example/sso?zone=eu&app=portal&flag&a=1;b=2",
 }
 
 // DrawOut draws the outbound world. encStyle/sigStyle are drawn first (directed prefixes
